@@ -58,6 +58,8 @@ pub struct FlowState {
     /// the flow was identified as a message-per-segment protocol (SSH, STUN, Gh0st, SMB) and every
     /// segment so far was a complete message: later segments are judged as messages of it
     pub per_message: Option<crate::sig::Proto>,
+    /// some earlier segment left the reference dispatcher in a state other than "pending"
+    pub seen_non_pending: bool,
 }
 
 /// Reference connection table: set of validated flows, each with the bytes received so far.
